@@ -7,6 +7,10 @@ import zlib
 import refcodec
 from lib import hx
 
+EXTRA_PROPS = ['C01Dispatch', 'C01DispatchLive']
+
+EXTRACT = ['gen.c01dispatch']
+
 RULE = ("packet sequences of 1..6 generic packets (ids incl. unknown ones and multi-byte VarInt ids, "
         "payload sizes 0..8 KiB and t-1,t,t+1 around the threshold) x thresholds {disabled,-1,0,1,64,256,"
         "n} x cipher on/off (real cryptography objects through the real wrappers) x segmentations "
